@@ -4,9 +4,16 @@
   module names as nodes, a hierarchy edge exactly between a truncated name and its parent, and an import edge
   a → b exactly when some module truncating to a imports some module truncating to b and a ≠ b.
   With `lim = none` this is the statement that the graph constructor represents the architecture faithfully.
+
+  Second sentence: the flattened graph is the graph of the (well-formed) quotient architecture `truncArch lim a`,
+  and every STRICT rule whose identifiers lie at or above the limit (`ruleAbove k r`: `are_named x` with at most k+1
+  components, `are_sub_modules_of x` with at most k) has the same verdict on the flattened and on the full graph.
+  For related identifiers this fails (`verdict_not_preserved_related`).
 -/
 import Bridge.Abs
+import Bridge.Quotient
 import PtaProofs.Lemmas.Build
+import PtaProofs.Lemmas.LimitVerdict
 namespace Pta.C09
 open Pta PtaSpec
 
@@ -37,5 +44,90 @@ def exA : Arch :=
     imports := [(["p".toList, "a".toList, "x".toList], ["q".toList]), (["p".toList, "a".toList, "x".toList], ["p".toList, "a".toList])] }
 example : exA.wf = true := by decide
 example : (archGraphLim exA (some 1)).importPairs = [("p.a".toList, "q".toList)] := by decide
+
+/-! ### second sentence: verdicts above the limit are preserved -/
+
+/-- the flattened graph is the graph of the quotient architecture … -/
+theorem graph_of_quotient_arch (a : Arch) (hwf : a.wf = true) (lim : Option Nat) :
+    GraphOf (truncArch lim a) (archGraphLim a lim) :=
+  Pta.graphOf_truncArch a lim _ (Pta.buildGraph_quotient a hwf lim)
+
+/-- … which is again well-formed (in particular truncation never makes an importer a strict ancestor of its importee),
+    so that C01 applies to the flattened graph -/
+theorem quotient_arch_wf (a : Arch) (hwf : a.wf = true) (lim : Option Nat) : (truncArch lim a).wf = true :=
+  Pta.truncArch_wf lim a hwf
+
+/-- on the specification side, rules at or above the limit do not see the truncation -/
+theorem spec_verdict_preserved (a : Arch) (k : Nat) (r : RuleSpec) (hstrict : r.strict = true)
+    (hany : r.anything = true → r.verb = .shouldNot) (habove : ruleAbove k r = true) :
+    verdict (truncArch (some k) a) r = verdict a r :=
+  Pta.verdict_trunc k a r hstrict habove hany
+
+/-- C09, second sentence: every strict rule whose named modules lie at or above level k (and whose
+    'sub modules of' parents lie strictly above it) has the same verdict on the flattened and on the full graph -/
+theorem verdict_preserved (mt : Str → Str → Bool) (a : Arch) (hwf : a.wf = true) (k : Nat)
+    (r : RuleSpec) (hstrict : r.strict = true) (hnames : r.namesIn a = true)
+    (hs : r.subjects ≠ []) (ho : r.anything = true ∨ r.objects ≠ [])
+    (hany : r.anything = true → r.verb = .shouldNot)
+    (hdepth : ruleAbove k r = true) :
+    verdictOf mt (archGraphLim a (some k)) (compile r) = verdictOf mt (archGraph a) (compile r) :=
+  Pta.verdict_preserved_lemma mt a hwf k r hstrict hnames hs ho hany hdepth
+
+/-- `hdepth`, spelled out: `are_named x` has at most k+1 components, `are_sub_modules_of x` at most k -/
+theorem ruleAbove_iff (k : Nat) (r : RuleSpec) :
+    ruleAbove k r = true ↔ ∀ f ∈ r.subjects ++ r.effObjects,
+      (∀ x, f = .named x → x.length ≤ k + 1) ∧ (∀ x, f = .subOf x → x.length ≤ k) := by
+  unfold ruleAbove
+  rw [List.all_eq_true]
+  refine forall_congr' fun f => forall_congr' fun _ => ?_
+  cases f <;> simp [filterAbove]
+
+/-- and both are the documented semantics evaluated on the FULL architecture -/
+theorem verdict_lim_spec (mt : Str → Str → Bool) (a : Arch) (hwf : a.wf = true) (k : Nat)
+    (r : RuleSpec) (hstrict : r.strict = true) (hnames : r.namesIn a = true)
+    (hs : r.subjects ≠ []) (ho : r.anything = true ∨ r.objects ≠ [])
+    (hany : r.anything = true → r.verb = .shouldNot)
+    (hdepth : ruleAbove k r = true) :
+    verdictOf mt (archGraphLim a (some k)) (compile r) = VClass.ofBool (verdict a r) :=
+  Pta.verdict_lim_spec_lemma mt a hwf k r hstrict hnames hs ho hany hdepth
+
+/-! non-vacuity: `p.a should only import q` at limit 1; `sub modules of p should not import except q` at limit 1 -/
+def nm (s : String) : Name := splitDots s.toList
+def exR : RuleSpec :=
+  { verb := .shouldOnly, importDir := true, exc := false, subjects := [.named (nm "p.a")], objects := [.named (nm "q")] }
+def exR2 : RuleSpec :=
+  { verb := .shouldNot, importDir := true, exc := true, subjects := [.subOf (nm "p")], objects := [.named (nm "q")] }
+example : exA.wf = true ∧ exR.strict = true ∧ exR.namesIn exA = true ∧ exR.subjects ≠ [] ∧ exR.objects ≠ [] ∧
+    ruleAbove 1 exR = true := by decide
+example : exR2.strict = true ∧ exR2.namesIn exA = true ∧ ruleAbove 1 exR2 = true := by decide
+example : (truncArch (some 1) exA).nodes = [nm "p", nm "p.a", nm "p.b", nm "q"] ∧
+    (truncArch (some 1) exA).imports = [(nm "p.a", nm "q")] := by decide
+example : verdictOf (fun _ _ => false) (archGraphLim exA (some 1)) (compile exR) = .pass ∧
+    verdictOf (fun _ _ => false) (archGraph exA) (compile exR) = .pass := by decide
+example : verdictOf (fun _ _ => false) (archGraphLim exA (some 1)) (compile exR2) = .pass ∧
+    verdictOf (fun _ _ => false) (archGraph exA) (compile exR2) = .pass := by decide
+
+/-- the `anything` alias: `p.a should not import anything` fails on both graphs (`p.a.x → q`) -/
+def exR3 : RuleSpec :=
+  { verb := .shouldNot, importDir := true, exc := false, subjects := [.named (nm "p.a")], objects := [], anything := true }
+example : exR3.strict = true ∧ exR3.namesIn exA = true ∧ ruleAbove 1 exR3 = true := by decide
+example : verdictOf (fun _ _ => false) (archGraphLim exA (some 1)) (compile exR3) = .fail ∧
+    verdictOf (fun _ _ => false) (archGraph exA) (compile exR3) = .fail := by decide
+
+/-! ### why the theorem is stated on strict rules -/
+
+/-- `p.a.x → p.a.y` is the only import; the rule is `p.a should import p` (object `p` is an ancestor of the subject) -/
+def exB : Arch :=
+  { nodes := [nm "p", nm "p.a", nm "p.a.x", nm "p.a.y", nm "p.b"], imports := [(nm "p.a.x", nm "p.a.y")] }
+def exRrel : RuleSpec :=
+  { verb := .should, importDir := true, exc := false, subjects := [.named (nm "p.a")], objects := [.named (nm "p")] }
+
+/-- for RELATED identifiers the verdict is not preserved: every hypothesis of `verdict_preserved` except strictness
+    holds (all names exist and lie at or above limit 1), the rule passes on the full graph (the import `p.a.x → p.a.y`
+    leads from `p.a` into `p`) and fails on the flattened graph (the import collapses to a dropped self edge of `p.a`) -/
+theorem verdict_not_preserved_related :
+    exB.wf = true ∧ exRrel.namesIn exB = true ∧ ruleAbove 1 exRrel = true ∧ exRrel.strict = false ∧
+    verdictOf (fun _ _ => false) (archGraph exB) (compile exRrel) = .pass ∧
+    verdictOf (fun _ _ => false) (archGraphLim exB (some 1)) (compile exRrel) = .fail := by decide
 
 end Pta.C09
